@@ -740,6 +740,79 @@ Section Scan.
       apply (arg_rest_ok (VPtr be 0) (nthb e 0) (nthb e 1) H0 H1 fuel i w0 VUndef VUndef i' w' H Hcap Hf).
   Qed.
   End ArgTop.
+
+  (* ------------------------------------------------------------------ ex_plus (after its first store) *)
+  Definition plus_cond : expr := EAndAlso C_nz (C_ne 32).
+  Definition plus_body : stmt :=
+    SSeq (SIf (EAndAlso (EBin OEq I32 (ECast I32 (ELoad (Some I8) (EPtrAdd 1 (ELocal 0) (EConst 0)))) (EConst 92))
+                        (ECast I32 (ELoad (Some I8) (EPtrAdd 1 (ELocal 0) (EConst 1))))) S_inc SSkip)
+         (SExpr E_copy1).
+  Lemma eval_plus_cond rest i w c : CapDefs.rd s i = CapDefs.Ok c ->
+    eval call plus_cond (ST i w rest) = Ok (VInt (b2z (negb ((c =? 0)%N || (c =? 32)%N))), ST i w rest).
+  Proof.
+    intros Hc. pose proof (rd_lt256 i c Hc). unfold plus_cond, C_nz, C_ne. cond_tac2 Hc.
+  Qed.
+  Lemma plus_loop_ok rest : forall fm i w i' w' fuel,
+    CapDefs.plus_loop fm s i w = CapDefs.Ok (i', w') -> CapDefs.wcap w = length blk -> (fm <= fuel)%nat ->
+    exec call fuel (SWhile plus_cond plus_body) (ST i w rest) = ONormal (ST i' w' rest) /\ CapDefs.wcap w' = length blk.
+  Proof.
+    induction fm as [|fm IH]; intros i w i' w' fuel H Hcap Hf; [discriminate|].
+    destruct fuel as [|fuel]; [lia|]. cbn [CapDefs.plus_loop] in H.
+    destruct (CapDefs.rd s i) as [c| | |] eqn:Hc; cbn [CapDefs.bind] in H; try discriminate.
+    pose proof (rd_lt256 i c Hc) as Hc256.
+    rewrite exec_while, (eval_plus_cond rest i w c Hc). xcbn. rewrite nb2z.
+    destruct ((c =? 0)%N || (c =? 32)%N); cbn [negb].
+    { injection H as <- <-. split; [reflexivity|exact Hcap]. }
+    match type of H with CapDefs.bind ?e _ = _ => destruct e as [i1| | |] eqn:H1 end; cbn [CapDefs.bind] in H; try discriminate.
+    destruct (CapDefs.copy1 s i1 w) as [[i2 w2]| | |] eqn:H2; cbn [CapDefs.bind fst snd] in H; try discriminate.
+    unfold plus_body at 1. rewrite exec_seq.
+    match goal with |- context [exec call (S fuel) (SIf ?c ?a ?b) ?st] =>
+      assert (E1 : exec call (S fuel) (SIf c a b) st = ONormal (ST i1 w rest)) end.
+    { rewrite exec_if. xs. rewrite (load_rd w i c _ Hc) by lia. xs. chars H256.
+      destruct (c =? 92)%N; xs.
+      - destruct (CapDefs.rd s (S i)) as [b| | |] eqn:Hb; cbn [CapDefs.bind] in H1; try discriminate.
+        pose proof (rd_lt256 (S i) b Hb). rewrite (load_rd w (S i) b _ Hb) by lia. xs. chars H256.
+        injection H1 as <-. destruct (b =? 0)%N; xs; [reflexivity|].
+        unfold S_inc. xs. replace (Z.of_nat i + 1) with (Z.of_nat (S i)) by lia. reflexivity.
+      - injection H1 as <-. reflexivity. }
+    rewrite E1. destruct (eval_copy1 i1 w rest i2 w2 H2 Hcap) as [E2 C2]. rewrite exec_expr, E2.
+    apply (IH i2 w2 i' w' fuel H C2). lia.
+  Qed.
+
+  Definition plus_tail : stmt :=
+    SSeq (SIf (C_ne 43) (SReturn (Some (ELocal 0))) SSkip)
+   (SSeq (SWhile plus_cond plus_body) (SSeq (SExpr E_term) (SSeq (SWhile C_blank S_inc) (SReturn (Some (ELocal 0)))))).
+  Lemma plus_tail_ok fuel i1 w i' w' : 
+    CapDefs.bind (CapDefs.rd s i1) (fun c => if negb (c =? 43)%N then CapDefs.Ok (i1, w) else
+      CapDefs.bind (CapDefs.plus_loop (S (length s)) s i1 w) (fun iw =>
+      CapDefs.bind (CapDefs.wr (snd iw) 0%N) (fun w' =>
+      CapDefs.bind (CapDefs.skip_while (S (length s)) CapDefs.is_blank s (fst iw)) (fun i2 => CapDefs.Ok (i2, w')))))
+    = CapDefs.Ok (i', w') ->
+    CapDefs.wcap w = length blk -> (S (length s) <= fuel)%nat ->
+    exists st, exec call fuel plus_tail (ST i1 w []) = OReturn (VPtr bs (Z.of_nat i')) st /\ memm st = MM w'.
+  Proof.
+    intros H Hcap Hf.
+    destruct (CapDefs.rd s i1) as [c| | |] eqn:Hc; cbn [CapDefs.bind] in H; try discriminate.
+    pose proof (rd_lt256 i1 c Hc) as Hc256.
+    unfold plus_tail. rewrite exec_seq, exec_if. unfold C_ne at 1. xs. rewrite (load_rd w i1 c _ Hc eq_refl). xs. chars H256.
+    destruct (c =? 43)%N; cbn [negb] in H |- *; xs.
+    2:{ injection H as <- <-. eexists; split; reflexivity. }
+    destruct (CapDefs.plus_loop _ s i1 w) as [[i2 w2]| | |] eqn:H2; cbn [CapDefs.bind fst snd] in H; try discriminate.
+    destruct (CapDefs.wr w2 0%N) as [w3| | |] eqn:H3; cbn [CapDefs.bind] in H; try discriminate.
+    destruct (CapDefs.skip_while _ _ s i2) as [i3| | |] eqn:H4; cbn [CapDefs.bind] in H; try discriminate. injection H as <- <-.
+    destruct (plus_loop_ok [] _ i1 w i2 w2 fuel H2 Hcap Hf) as [E2 C2].
+    rewrite E2. xs. rewrite (eval_term _ _ _ w3 H3 C2). xs.
+    rewrite (skip_loop_ok C_blank CapDefs.is_blank _ _ (fun i c => eval_C_blank _ _ w3 i c eq_refl) _ i2 i3 fuel H4 Hf).
+    xs. eexists; split; reflexivity.
+  Qed.
+  Lemma ex_plus_shape : fn_body cf_ex_plus = SSeq (SWhile (C_is 32) S_inc) (SSeq (SExpr E_term) plus_tail).
+  Proof. reflexivity. Qed.
+  Lemma eval_C_sp rest mm' w i c : mm' = MM w -> CapDefs.rd s i = CapDefs.Ok c ->
+    eval call (C_is 32) (mkst (VPtr bs (Z.of_nat i) :: rest) mm')
+    = Ok (VInt (b2z (c =? 32)%N), mkst (VPtr bs (Z.of_nat i) :: rest) mm').
+  Proof.
+    intros -> Hc. pose proof (rd_lt256 i c Hc). unfold C_is. cond_tac Hc.
+  Qed.
 End Scan.
 
 (* ------------------------------------------------------------------ the calls *)
@@ -794,6 +867,39 @@ Proof.
   change (fn_nparams cf_ex_arg) with 3%nat. change (fn_nlocals cf_ex_arg) with 7%nat.
   cbn [length Nat.eqb Nat.sub repeat app]. cbn [CapDefs.wlen CapDefs.newbuf fst length Z.of_nat] in E.
   rewrite E, M. reflexivity.
+Qed.
+
+(* ex_plus(src, pls): the C text stores a terminator at pls[0] before it looks for the '+' (the model only
+   checks that there is room for it), so the destination is described over blk with cell 0 set to 0 *)
+Theorem tr_ex_plus m bs bd s blk i i' w d fuel :
+  str_at m bs s -> bytes_lt256 s -> nth_error m bd = Some blk -> bs <> bd ->
+  CapDefs.ex_plus s i (CapDefs.newbuf (length blk)) = CapDefs.Ok (i', w) ->
+  (S (length s) <= fuel)%nat ->
+  callf cprog fuel (S d) F_ex_plus [VPtr bs (Z.of_nat i); VPtr bd 0] m
+  = Ok (VPtr bs (Z.of_nat i'), upd m bd (dblock w (upd blk 0 (VInt 0)))).
+Proof.
+  intros Hs H256 Hd Hne H Hf. unfold CapDefs.ex_plus in H. cbv zeta in H.
+  destruct (CapDefs.skip_while _ _ s i) as [i1| | |] eqn:H1; cbn [CapDefs.bind] in H; try discriminate.
+  change (CapDefs.wroom (CapDefs.newbuf (length blk))) with (length blk) in H.
+  destruct (Nat.eqb_spec (length blk) 0) as [|Hn0]; [discriminate|].
+  pose (blk' := upd blk 0 (VInt 0)). pose (m' := upd m bd blk').
+  assert (Hbd : (bd < length m)%nat) by (apply nth_error_Some; congruence).
+  assert (Hs' : str_at m' bs s) by (apply str_at_upd_other; auto).
+  assert (Hd' : nth_error m' bd = Some blk') by (apply mem_upd_same; exact Hbd).
+  assert (Hl' : length blk' = length blk) by (apply upd_length; lia).
+  rewrite <- Hl' in H.
+  destruct (plus_tail_ok m' bs bd s blk' Hs' H256 Hd' Hne (callf cprog fuel d) fuel i1 _ i' w H (newbuf_cap _) Hf) as (st & E & M).
+  rewrite (MM_new m' bd blk' Hd') in E. cbn [CapDefs.wlen CapDefs.newbuf fst length Z.of_nat] in E.
+  rewrite callf_S. cbn [nth_error cprog F_ex_plus].
+  change (fn_nparams cf_ex_plus) with 2%nat. change (fn_nlocals cf_ex_plus) with 2%nat.
+  cbn [length Nat.eqb Nat.sub repeat app]. rewrite ex_plus_shape.
+  rewrite exec_seq.
+  rewrite (skip_loop_ok bs bd s Hne (callf cprog fuel d) (C_is 32) (fun c => (c =? 32)%N) [VPtr bd 0] m
+             (fun i c => eval_C_sp m bs bd s blk Hs H256 Hd Hne _ _ m (CapDefs.newbuf (length blk)) i c (eq_sym (MM_new m bd blk Hd _))) _ i i1 fuel H1 Hf).
+  rewrite exec_seq, exec_expr. unfold E_term at 1. xcbn.
+  rewrite (store_ok m bd blk 0 _ Hd) by lia. xcbn.
+  change (upd m bd (upd blk (Z.to_nat 0) (VInt (wrap I8 (wrap I8 0))))) with m'.
+  rewrite E, M. unfold MM, m'. rewrite upd_upd by exact Hbd. reflexivity.
 Qed.
 
 (* ------------------------------------------------------------------ composed with the capacity theorem *)
@@ -891,6 +997,25 @@ Proof.
   rewrite (dblock_wstr w blk (ex_arg_term _ _ _ _ _ _ _ E)).
   pose proof (CapProps.wstr_length w) as WL. destruct (ex_arg_term _ _ _ _ _ _ _ E) as (r & F).
   assert (CapDefs.wlen w = S (length r)) as WL2 by (unfold CapDefs.wlen; rewrite F; reflexivity).
+  repeat split; try assumption; lia.
+Qed.
+
+(* ex_plus(arg, pls) in ec_edit: pls[EXLEN], arg a piece of the command line *)
+Theorem ex_plus_safe m bs bd s blk i d fuel :
+  str_at m bs s -> bytes_lt256 s -> nth_error m bd = Some blk -> Z.of_nat (length blk) = EXLEN -> bs <> bd ->
+  Z.of_nat (length s) < EXLEN -> (i <= length s)%nat -> (S (length s) <= fuel)%nat ->
+  exists i' w, CapDefs.ex_plus s i (CapDefs.newbuf CapDefs.excap) = CapDefs.Ok (i', w) /\
+    callf cprog fuel (S d) F_ex_plus [VPtr bs (Z.of_nat i); VPtr bd 0] m
+    = Ok (VPtr bs (Z.of_nat i'), upd m bd (dblock w (upd blk 0 (VInt 0)))) /\
+    (i <= i')%nat /\ (i' <= length s)%nat /\ (CapDefs.wlen w <= i' - i + 1)%nat /\ (CapDefs.wlen w <= length blk)%nat.
+Proof.
+  intros Hs H256 Hd Hlen Hne Hln Hi Hf. pose proof (len_excap blk Hlen) as Hcap.
+  pose proof CapProps.excap_EXLEN as HE.
+  destruct (CapProps.ex_plus_spec s i (CapDefs.newbuf CapDefs.excap) Hi) as (i' & w & E & L1 & L2 & L3).
+  { change (CapDefs.wroom (CapDefs.newbuf CapDefs.excap)) with CapDefs.excap. lia. }
+  exists i', w. split; [exact E|]. rewrite <- Hcap in E.
+  rewrite (tr_ex_plus m bs bd s blk i i' w d fuel Hs H256 Hd Hne E Hf).
+  change (CapDefs.wlen (CapDefs.newbuf CapDefs.excap)) with 0%nat in L3.
   repeat split; try assumption; lia.
 Qed.
 
